@@ -103,8 +103,11 @@ def load_known():
 
 
 def known_open(known, prop, key):
+    """A finding is identified by its key (which starts with the id of the property it violates). A check
+    for another property that runs the same harness and observes that listed violation reports it as the
+    known finding of the property it belongs to."""
     for f in known:
-        if f.get("status") == "open" and f.get("property") == prop and f.get("key") == key:
+        if f.get("status") == "open" and f.get("key") == key and key.startswith(f.get("property", "?") + ":"):
             return f
     return None
 
@@ -498,7 +501,7 @@ def main(argv):
             unlisted.append(v)
     for key, n in sorted(known_hits.items()):
         k = known_open(known, prop, key)
-        log("KNOWN-FINDING: property=%s %s [key=%s, reproduced %d time(s)]" % (prop, k.get("what", ""), key, n))
+        log("KNOWN-FINDING: property=%s %s [key=%s, reproduced %d time(s)]" % (k.get("property", prop), k.get("what", ""), key, n))
     seen_keys = set()
     idx = 0
     for v in unlisted:
